@@ -79,5 +79,10 @@ ClassifyC16(rec) ==
     \* several operations on ONE patch for one id (purge / store of different records): after the merge the last one counts
     [] rec.kind = "sequence" ->
          IF ~JEq(rec.fetched, IF IsNull(rec.expected) THEN rec.expected ELSE DropNulls(rec.expected)) THEN "later_operation_on_the_same_patch_lost" ELSE "ok"
+    \* the last-handled state (diff-base storages): stored -> merged by the server -> fetched gives the essence back, whatever it is
+    [] rec.kind = "lasthandled" ->
+         IF ~JEq(rec.fetched, rec.essence) THEN "last_handled_state_not_read_back"
+         ELSE IF ~JEq(rec.others_before, rec.others_after) THEN "store_disturbs_others"
+         ELSE "ok"
     [] OTHER -> "unknown_record_kind"
 =============================================================================
